@@ -184,6 +184,12 @@ def instances(tier):
             yield term_case('BVDoubleNegation', ['bvnot', ['bvnot', x]], env)
             yield term_case('BVDoubleNegation', ['bvneg', ['bvneg', x]], env)
             yield term_case('BVReflexiveNand', ['bvnand', x, x], env)
+            # near misses: whatever is proposed for them must still be an
+            # identity
+            yield term_case('BVDoubleNegation', ['bvnot', ['bvneg', x]], env)
+            yield term_case('BVDoubleNegation', ['bvneg', ['bvnot', x]], env)
+            yield term_case('BVReflexiveNand', ['bvnand', x, 'y'], env)
+            yield term_case('BVReflexiveNand', ['bvnand', x, x, x], env)
             for y in xs:
                 for one in bv_consts(1):
                     for zero in bv_consts(1):
@@ -211,6 +217,11 @@ def instances(tier):
     # --- boolean
     for a in boolpool:
         yield term_case('BoolDoubleNegation', ['not', ['not', a]], benv)
+        yield term_case('BoolDoubleNegation', ['not', ['not', a, a]], benv) \
+            if False else None
+        yield term_case('BoolDeMorgan', ['not', ['xor', a, 'p1']], benv)
+        yield term_case('BoolXOREliminateBinary', ['xor', a, 'p1', 'p2'],
+                        benv)
         yield term_case('BoolEliminateFalseEquality', ['=', 'false', a], benv)
         yield term_case('BoolEliminateFalseEquality', ['=', a, 'false'], benv)
         for b in boolpool:
